@@ -59,7 +59,8 @@ func (self *Compiler) mangleVar(input string) string {
 		self.varNameMangle[input]++
 	}
 
-	mangled := fmt.Sprintf("@%s_%s%d", self.currModule, input, cnt)
+	// the counter is separated from the name: `a1` (first) and `a` (eleventh) must not both become `a10`
+	mangled := fmt.Sprintf("@%s_%s#%d", self.currModule, input, cnt)
 	(*self.currScope)[input] = mangled
 
 	return mangled
